@@ -242,7 +242,8 @@ theorem parseTypeDefinition_unfold (env : Env) (fuel : Nat) (cn tn : String) (si
       resolve env fuel sel tn { st with publicNames := st.publicNames ++ [cn] } = .ok (x, st1) ∧
       forIn resolved (([], []) : FAcc) (fieldBody env fuel' cn tn tv)
         (afterTypename a sid (if st1.marks.contains sid then typenameRField :: x.1 else x.1) st1) = .ok (acc, st') ∧
-      cs = { name := cn, bases := classBases x.2 eb, fields := acc.1 } :: acc.2 := by
+      cs = { name := cn, bases := classBases x.2 eb, fields := acc.1 } :: acc.2 ∧
+      (∀ f ∈ resolved, f = typenameRField ∨ f ∈ x.1) := by
   cases fuel with
   | zero =>
     rw [parseTypeDefinition_zero] at h
@@ -266,17 +267,31 @@ theorem parseTypeDefinition_unfold (env : Env) (fuel : Nat) (cn tn : String) (si
       have hs4 := (ok_modify _ _ _ _).mp h4
       subst hs4
       obtain ⟨acc, hl, hcs⟩ := classTail_ok _ _ _ _ _ _ _ _ _ _ _ hE
-      refine ⟨x, s3, typenameRField :: (if s3.marks.contains sid then typenameRField :: x.1 else x.1), acc, fuel, rfl, h2, ?_, hcs⟩
-      have hst : afterTypename a sid (if s3.marks.contains sid then typenameRField :: x.1 else x.1) s3 =
-          { s3 with marks := if s3.marks.contains sid then s3.marks else s3.marks ++ [sid] } := by
-        unfold afterTypename; rw [if_pos hc]
-      rw [hst]; exact hl
+      refine ⟨x, s3, typenameRField :: (if s3.marks.contains sid then typenameRField :: x.1 else x.1), acc, fuel, rfl, h2, ?_, hcs, ?_⟩
+      · have hst : afterTypename a sid (if s3.marks.contains sid then typenameRField :: x.1 else x.1) s3 =
+            { s3 with marks := if s3.marks.contains sid then s3.marks else s3.marks ++ [sid] } := by
+          unfold afterTypename; rw [if_pos hc]
+        rw [hst]; exact hl
+      · intro f hf
+        rcases List.mem_cons.mp hf with rfl | hf
+        · exact Or.inl rfl
+        · split at hf
+          · rcases List.mem_cons.mp hf with rfl | hf
+            · exact Or.inl rfl
+            · exact Or.inr hf
+          · exact Or.inr hf
     · simp only [hc] at hD
       obtain ⟨acc, hl, hcs⟩ := classTail_ok _ _ _ _ _ _ _ _ _ _ _ hD
-      refine ⟨x, s3, (if s3.marks.contains sid then typenameRField :: x.1 else x.1), acc, fuel, rfl, h2, ?_, hcs⟩
-      have hst : afterTypename a sid (if s3.marks.contains sid then typenameRField :: x.1 else x.1) s3 = s3 := by
-        unfold afterTypename; rw [if_neg hc]
-      rw [hst]; exact hl
+      refine ⟨x, s3, (if s3.marks.contains sid then typenameRField :: x.1 else x.1), acc, fuel, rfl, h2, ?_, hcs, ?_⟩
+      · have hst : afterTypename a sid (if s3.marks.contains sid then typenameRField :: x.1 else x.1) s3 = s3 := by
+          unfold afterTypename; rw [if_neg hc]
+        rw [hst]; exact hl
+      · intro f hf
+        split at hf
+        · rcases List.mem_cons.mp hf with rfl | hf
+          · exact Or.inl rfl
+          · exact Or.inr hf
+        · exact Or.inr hf
 
 theorem parseTypeDefinition_seen (env : Env) (fuel : Nat) (cn tn : String) (sid : Nat) (sel : List Selection) (a : Bool)
     (eb tv : List String) (st : St) (cs : List ClassDecl) (st' : St)
@@ -412,7 +427,7 @@ theorem parse_spec (env : Env) : ∀ fuel : Nat,
         obtain ⟨rfl, rfl⟩ := parseTypeDefinition_seen _ _ _ _ _ _ _ _ _ _ _ _ h hseen
         exact ⟨Grow.refl _ _, fun c hc => by cases hc⟩
       | false =>
-        obtain ⟨x, st1, resolved, acc, fuel', hfu, hres, hloop, hcs⟩ := parseTypeDefinition_unfold _ _ _ _ _ _ _ _ _ _ _ _ h hseen
+        obtain ⟨x, st1, resolved, acc, fuel', hfu, hres, hloop, hcs, _⟩ := parseTypeDefinition_unfold _ _ _ _ _ _ _ _ _ _ _ _ h hseen
         have hfu' : fuel' = fuel := by omega
         subst hfu'
         have sp := resolve_spec env _ _ _ _ _ _ hres
